@@ -93,6 +93,11 @@ def validate(desc, tree, check_capacity=True):
                 problems.append(("tensor_without_holder", {"einsum": e, "tensor": t}))
             if levels != sorted(levels):
                 problems.append(("storage_order_violates_hierarchy", {"einsum": e, "tensor": t, "levels": levels}))
+            if len(levels) != len(set(levels)):
+                # well-formedness: one component holds one tile of a tensor at a time - two holders of the same
+                # tensor in the same component on one root-to-compute path (the model refuses such a tree)
+                problems.append(("tensor_held_twice_by_one_component", {"einsum": e, "tensor": t,
+                                 "components": [n["comp"] for n in path if n["t"] == "S" and t in n["tensors"]]}))
         env, full = _keep_env(w, e, path, mem_order)
         for m in a["mems"]:
             held = env[m["name"]]
